@@ -1,6 +1,7 @@
 package props
 
 import (
+	"strings"
 	"testing"
 
 	"pgregory.net/rapid"
@@ -18,6 +19,24 @@ func init() {
 				vs = append(vs, v)
 			}
 		}
+		// a pipeline whose script contains nothing that can fail must not fail because it is
+		// being stopped gracefully, and the stop must report success
+		if res.Case.Faultless() && !res.Wedged {
+			eng := res.Case.Engine
+			for i, e := range res.Events {
+				if e.Kind == lab.EvStatus && (strings.HasPrefix(e.Info, "Degraded") || strings.HasPrefix(e.Info, "Recovering")) {
+					vs = append(vs, lab.Violation{Prop: "C06", Key: "C06/faultless-pipeline-failed-during-graceful-stop/" + eng, Index: i,
+						Detail: "every plugin answers and confirms everything, yet the pipeline went " + e.Info + ": " + truncateStr(e.Pos, 300)})
+					break
+				}
+			}
+			for _, cr := range res.Ctl {
+				if (cr.Kind == "stopandwait" || cr.Kind == "stopwait" || cr.Kind == "stopallwait") && cr.Returned && cr.Err != "" && cr == firstStop(res) {
+					vs = append(vs, lab.Violation{Prop: "C06", Key: "C06/graceful-stop-of-faultless-pipeline-returned-error/" + eng, Index: cr.RetIdx,
+						Detail: cr.Kind + " returned: " + truncateStr(cr.Err, 300)})
+				}
+			}
+		}
 		return vs
 	}
 	extraLabOracles["C12"] = c12Oracle
@@ -27,8 +46,8 @@ func c06Opts() lab.GenOpts {
 	return lab.GenOpts{
 		Engines: []string{"v1", "v2"}, MaxSources: 3, MaxDests: 3, MaxRecords: 14, MaxProcs: 2,
 		Nacks: true, ProcErrors: true, Filters: true, Splits: true, Conditions: true, Workers: true,
-		UnlimitedDLQ: true, GateCommits: true,
-		ClientKinds: []string{"stopandwait", "stopwait"}, ClientProb: 1.0,
+		UnlimitedDLQ: true, GateCommits: true, GateAcks: true,
+		ClientKinds: []string{"stopandwait", "stopwait", "stopallwait"}, ClientProb: 1.0,
 	}
 }
 
@@ -39,6 +58,9 @@ func TestC06(t *testing.T) {
 	opts := c06Opts()
 	rapid.Check(t, func(t *rapid.T) {
 		c := lab.GenCase(t, opts)
+		if lab.Chance(t, "faultless", 40) {
+			c.MakeFaultless()
+		}
 		res, m, h := runLab(t, "C06", c)
 		if res.ProvisionErr != nil {
 			t.Fatalf("provision: %v", res.ProvisionErr)
@@ -47,7 +69,7 @@ func TestC06(t *testing.T) {
 		healthy := h.Healthy()
 		returnedOK := false
 		for _, cr := range res.Ctl {
-			if (cr.Kind == "stopandwait" || cr.Kind == "stopwait") && cr.Returned && cr.Err == "" {
+			if (cr.Kind == "stopandwait" || cr.Kind == "stopwait" || cr.Kind == "stopallwait") && cr.Returned && cr.Err == "" {
 				returnedOK = true
 			}
 		}
@@ -206,3 +228,15 @@ func TestC12(t *testing.T) {
 
 func TestReplayC06(t *testing.T) { replayLab(t, "C06") }
 func TestReplayC12(t *testing.T) { replayLab(t, "C12") }
+
+
+// firstStop returns the first stop-like control call of a run (later ones meet a pipeline that
+// is already stopping or stopped and may legitimately be refused).
+func firstStop(res *lab.Result) *lab.CtlResult {
+	for _, cr := range res.Ctl {
+		if strings.HasPrefix(cr.Kind, "stop") || cr.Kind == "forcestop" {
+			return cr
+		}
+	}
+	return nil
+}
